@@ -558,4 +558,4 @@ def replay(ctx, rep):
     for r in out['recs']:
         print('spec: rejected=%s expressions=%r verdict=%s as-built-cache=%s' % (
             r['rej'], [join(e) for e in r['exprs']], r['outs'][0]['v'], r['outs'][0]['asb']))
-    ctx.violations.append('replayed')
+        assess(ctx, collections.Counter(), fn_of, rep['s'], tuple(rep['hist']), [(st, o)], r)
